@@ -14,6 +14,7 @@ A *case* is a JSON dict:
   backend : json | dbm | sqlite3;   ran : labels given to `doit run` beforehand (so that there is state to forget)
 """
 import contextlib
+import functools
 import io
 import json
 import os
@@ -35,6 +36,8 @@ def _on_alarm(signum, frame):
 
 
 KINDS = ['none', 'targets', 'actions']
+PLAIN_FORMS = ['def', 'kwargs', 'args', 'default', 'partial', 'object']    # no parameter named dryrun
+AWARE_FORMS = ['def', 'default', 'kwonly', 'partial', 'object']            # a parameter named dryrun
 DBNAME = {'json': 'db.json', 'dbm': 'db.dbm', 'sqlite3': 'db.sqlite'}
 
 
@@ -87,7 +90,8 @@ def norm_case(case):
         elif t['kind'] == 'actdry':
             t['kind'], t['actions'] = 'actions', [{'type': 'aware', 'eff': None}]
         elif t['kind'] == 'actions':
-            t['actions'] = [{'type': a['type'], 'eff': a.get('eff')} for a in t.get('actions', [])]
+            t['actions'] = [{'type': a['type'], 'eff': a.get('eff'), 'form': a.get('form', 'def')}
+                            for a in t.get('actions', [])]
         else:
             t.pop('actions', None)
         tasks.append(t)
@@ -123,28 +127,78 @@ def build_namespace(case, log, out, cmdlog='/dev/null'):
             return {'v': i}
         return act
 
-    def clean_plain(i, k, eff):
-        def clean_fn():
-            log.append(('ran', i, k, False, len(out.getvalue())))
-            _apply_eff(eff)
-        clean_fn.__qualname__ = clean_fn.__name__ = 'cleanact_%d_%d' % (i, k)
-        return clean_fn
+    def name_it(fn, i, k):
+        fn.__qualname__ = fn.__name__ = 'cleanact_%d_%d' % (i, k)
+        return fn
 
-    def clean_dry(i, k, eff):
-        def clean_fn(dryrun):
+    def clean_plain(i, k, eff, form='def'):
+        """a python clean action WITHOUT a parameter named `dryrun`, in several shapes (all must be left alone by
+        --dry-run): plain def, **kwargs catch-all, *args, a defaulted other parameter, functools.partial, object"""
+        def record(seen_dry=False):
+            log.append(('ran', i, k, bool(seen_dry), len(out.getvalue())))
+            _apply_eff(eff)
+        if form == 'kwargs':
+            def clean_fn(**opts):
+                record(opts.get('dryrun', False))
+        elif form == 'args':
+            def clean_fn(*args):
+                record()
+        elif form == 'default':
+            def clean_fn(verbose=False):
+                record()
+        elif form == 'partial':
+            def inner(tag):
+                record()
+            return functools.partial(name_it(inner, i, k), 'x')
+        elif form == 'object':
+            class Obj(object):
+                def __call__(self):
+                    record()
+
+                def __repr__(self):
+                    return '<cleanact_%d_%d object at 0x0>' % (i, k)
+            return Obj()
+        else:
+            def clean_fn():
+                record()
+        return name_it(clean_fn, i, k)
+
+    def clean_dry(i, k, eff, form='def'):
+        """a python clean action WITH a parameter named `dryrun` (called on every clean, told the flag)"""
+        def record(dryrun):
             log.append(('ran', i, k, bool(dryrun), len(out.getvalue())))
             if not dryrun:
                 _apply_eff(eff)
-        clean_fn.__qualname__ = clean_fn.__name__ = 'cleanact_%d_%d' % (i, k)
-        return clean_fn
+        if form == 'default':
+            def clean_fn(dryrun=False):
+                record(dryrun)
+        elif form == 'kwonly':
+            def clean_fn(*, dryrun):
+                record(dryrun)
+        elif form == 'partial':
+            def inner(tag, dryrun):
+                record(dryrun)
+            return functools.partial(name_it(inner, i, k), 'x')
+        elif form == 'object':
+            class Obj(object):
+                def __call__(self, dryrun):
+                    record(dryrun)
+
+                def __repr__(self):
+                    return '<cleanact_%d_%d object at 0x0>' % (i, k)
+            return Obj()
+        else:
+            def clean_fn(dryrun):
+                record(dryrun)
+        return name_it(clean_fn, i, k)
 
     def clean_list(i):
         res = []
         for k, a in enumerate(tasks[i].get('actions', [])):
             if a['type'] == 'aware':
-                res.append(clean_dry(i, k, a.get('eff')))
+                res.append(clean_dry(i, k, a.get('eff'), a.get('form', 'def')))
             elif a['type'] == 'plain':
-                res.append(clean_plain(i, k, a.get('eff')))
+                res.append(clean_plain(i, k, a.get('eff'), a.get('form', 'def')))
             else:
                 res.append('echo %d %d >> %s; %s' % (i, k, cmdlog, _shell_eff(a.get('eff'))))
         return res
